@@ -6,7 +6,7 @@ import PraatModel.Extract
 
 Token syntax of this group (in addition to `RunAudio.lean`'s `num/den` times, `h…` bytes):
 * `<den>`       : the common denominator of the integer times of the line
-* pair list     : `<n> (s e)*` — integer numerators over `<den>`
+* pair list     : `<n> (s e)*` — integer numerators over `<den>`; the keep list is optional (`N` = `None`)
 * generator     : `N` (no replaceFunc) | `sil` (`AudioGenerator.generateSilence`)
 * tg flag       : `off` | `all` | `only <name>`
 * name style    : `default` | `append` | `append_no_i` | `label`
@@ -51,10 +51,10 @@ def runOpExtract (α : Type) [LT α] [LE α] [DecidableLT α] [DecidableLE α] [
     (op : String) : Option (P String) :=
   match op with
   | "x_marked" => some do
-    let start ← P.int; let stop ← P.int; let keep ← pairs; let del ← pairs
+    let start ← P.int; let stop ← P.int; let keep ← P.opt pairs; let del ← pairs
     pure (Out.exc outMarked (computeKeepDelete start stop keep del))
   | "x_times" => some do
-    let den ← P.nat; let wv ← wav; let dur ← P.int; let keep ← pairs; let del ← pairs
+    let den ← P.nat; let wv ← wav; let dur ← P.int; let keep ← P.opt pairs; let del ← pairs
     let g ← P.tok
     let f : WavFile := ⟨wv.width, wv.rate, wv.frames⟩
     let gen : Option (Int → List UInt8) := if g = "sil" then some (generateSilence den f.rate f.width) else none
